@@ -20,6 +20,15 @@ From BB Require Import BN Brute SpaceFacts TrapFacts PercolateFacts AttractorFac
   Strict PetriNet Control Meta FilterFacts PetriNetFacts TrappistFacts DiagramStruct DiagramSem1 DiagramCache
   DiagramDepth DiagramComplete Termination ControlFacts MetaFacts Candidates StrictFacts MinExpandFacts CandidatesFacts SymbolicTest SymbolicTestFacts Signed ReductionFacts ControlFacts2 Main Blocks BlocksFacts ObsFacts OwnerFacts CandidatesTerm
   PartialOwner BlockMath BlockComplete ASeeds ASeedsFacts LogChecks SkipRule SkipRuleFacts Names NamesFacts Perm PermFacts SCC SCCFacts SCCStruct ControlFacts3 SCCTerm FilterSym Main2 StrategyFacts ControlFacts4 SkipRuleFacts2 SCCComplete SCCAttr BlockComplete2 ControlFacts5 Iso SkipSem ControlFacts6.
+From BB Require Import PyLib PyLibSd PySrcSdBase PySrcSd PySrcSdFacts.
+
+(* translator tie: the function GENERATED from the current text of biobalm/_sd_algorithms/expand_bfs.py (PySrcSd.v, regenerated on every run; embedding PyLibSd.v) equals the model's expand_bfs for every diagram, every limit and every fuel *)
+Theorem C03_source_expand_bfs : forall (fuel : nat) (N : net) (cfg : config) (d : sd) (start level_limit size_limit : option nat), py_expand_bfs fuel N cfg d start level_limit size_limit = expand_bfs fuel N cfg d start level_limit size_limit.
+Proof. exact py_expand_bfs_spec_all. Qed.
+
+(* ... and expand_dfs.py the model's expand_dfs *)
+Theorem C03_source_expand_dfs : forall (fuel : nat) (N : net) (cfg : config) (d : sd) (start stack_limit size_limit : option nat), py_expand_dfs fuel N cfg d start stack_limit size_limit = expand_dfs fuel N cfg d start stack_limit size_limit.
+Proof. exact py_expand_dfs_spec_all. Qed.
 
 Theorem C03_bfs_complete : forall (fuel : nat) (N : net) (cfg : config) (d d' : sd), 1 <= max_motifs cfg -> SWF N d -> NoStubEdges d -> EdgeStrict d -> Rooted d -> expand_bfs fuel N cfg d None None None = (d', RBool true) -> AllExpanded d'.
 Proof. exact bfs_complete. Qed.
@@ -148,6 +157,8 @@ Example C03_example_block : length (minimal_ids (fst (expand_block 100 ex_sw ex_
   size (fst (expand_block 100 ex_sw ex_cfg (init ex_sw) false true None [])) = 9.
 Proof. vm_compute. split; reflexivity. Qed.
 
+Print Assumptions C03_source_expand_bfs.
+Print Assumptions C03_source_expand_dfs.
 Print Assumptions C03_bfs_complete.
 Print Assumptions C03_dfs_complete.
 Print Assumptions C03_leaves_are_min_traps.
